@@ -54,12 +54,17 @@ SOLVER_REJECTS = [
     ("checkpoint_frequency", -1, SOLVERS), ("max_checkpoints", -1, SOLVERS),
     ("verbose", -1, SOLVERS), ("verbose", 5, SOLVERS),
     ("convergence_test", "foo", ["vi", "pi", "sa"]),
+    # near misses of the documented names are unknown names too
+    ("convergence_test", "SPAN", ["vi", "pi", "sa"]), ("convergence_test", "Max_Diff", ["vi", "pi", "sa"]),
+    ("convergence_test", "span ", ["vi", "pi", "sa"]), ("convergence_test", "", ["vi", "pi", "sa"]),
 ]
 PROBLEM_REJECTS = [
     ("forest", "S", 0), ("forest", "S", -3), ("forest", "p", -0.1), ("forest", "p", 1.1),
     ("de_moor", "max_demand", 0), ("de_moor", "demand_gamma_mean", 0.0), ("de_moor", "demand_gamma_cov", 0.0),
     ("de_moor", "demand_gamma_cov", -1.0), ("de_moor", "max_useful_life", 0), ("de_moor", "lead_time", 0),
     ("de_moor", "max_order_quantity", 0), ("de_moor", "issue_policy", "xifo"),
+    ("de_moor", "issue_policy", "FIFO"), ("de_moor", "issue_policy", "Lifo"), ("de_moor", "issue_policy", "fifo "),
+    ("de_moor", "issue_policy", ""),
     ("hendrix", "max_useful_life", 0), ("hendrix", "demand_poisson_mean_a", 0.0), ("hendrix", "demand_poisson_mean_b", -1.0),
     ("hendrix", "substitution_probability", -0.1), ("hendrix", "substitution_probability", 1.1),
     ("hendrix", "max_order_quantity_a", 0), ("hendrix", "max_order_quantity_b", 0),
@@ -169,6 +174,36 @@ def _routes(case):
         b = target.call(f"route config-only: {where}", cls, config=cfg)
         ra = target.call(f"solve route kwargs: {where}", a.solve, K)
         rb = target.call(f"solve route config-only: {where}", b.solve, K)
+        # route D: a configuration object REUSED from another run of a parameter sweep (its nested problem
+        # section still describes the other instance) together with this problem instance: the instance wins
+        other = dict(case["pparams"])
+        other.update({"forest": dict(r1=7.5, p=0.3), "de_moor": dict(shortage_cost=9.0), "mirjalili": dict(shortage_cost=11.0)}[case["pname"]])
+        po = target.call("construct sweep-neighbour problem", shipped.make, case["pname"], other)
+        cfg_d = target.call(f"build config: {where}", CFG[sv], problem=po.config, checkpoint_dir=os.path.join(tmp, "d"), **ck, **kw)
+        pd = target.call("construct problem", shipped.make, case["pname"], case["pparams"])
+        d = target.call(f"route config object + instance: {where}", cls, pd, config=cfg_d)
+        rd = target.call(f"solve route config object + instance: {where}", d.solve, K)
+        dd = target.call(f"route restore(yaml) of the config+instance run: {where}", cls.restore, os.path.join(tmp, "d"),
+                         new_checkpoint_dir=os.path.join(tmp, "dd"))
+        cd_, cdd = _norm(d.config), _norm(dd.config)
+        cd_.pop("checkpoint_dir", None), cdd.pop("checkpoint_dir", None)
+        ca0 = _norm(a.config)
+        ca0.pop("checkpoint_dir", None)
+        if cd_ != ca0 or cdd != ca0:
+            diff = [k for k in ca0 if ca0.get(k) != cd_.get(k) or ca0.get(k) != cdd.get(k)]
+            return dict(status="violation", kind="config-differs",
+                        detail=f"{where}: solver built from a reused configuration object + this problem instance (or its "
+                               f"restore) does not describe this problem: differs in {diff}: kwargs={ {k: ca0.get(k) for k in diff} } "
+                               f"config+instance={ {k: cd_.get(k) for k in diff} } its restore={ {k: cdd.get(k) for k in diff} }")
+        if int(rd.info.iteration) != int(ra.info.iteration) or not np.array_equal(np.asarray(rd.values), np.asarray(ra.values)) \
+                or int(dd.iteration) != int(rd.info.iteration) or not np.array_equal(np.asarray(dd.values), np.asarray(rd.values)):
+            return dict(status="violation", kind="routes-differ",
+                        detail=f"{where}: config object + instance route (or its restore) gives other results than the kwargs route")
+        rdd = target.call(f"continue restored config+instance run: {where}", dd.solve, 1)
+        rd1 = target.call(f"continue config+instance run: {where}", d.solve, 1)
+        if not bool(kw.get("shuffle_states")) and not np.allclose(np.asarray(rdd.values), np.asarray(rd1.values), rtol=1e-12, atol=0):
+            return dict(status="violation", kind="routes-differ",
+                        detail=f"{where}: the restore of a config object + instance run continues on another problem than the run itself")
         # route C: reloaded from the saved configuration file
         c = target.call(f"route restore(yaml): {where}", cls.restore, os.path.join(tmp, "a"),
                         new_checkpoint_dir=os.path.join(tmp, "c"))
@@ -204,13 +239,13 @@ def _routes(case):
                              not np.allclose(np.asarray(ra2.values), np.asarray(rc2.values), rtol=1e-12, atol=0)):
             return dict(status="violation", kind="routes-differ",
                         detail=f"{where}: continuing after restore() differs from continuing the original solver")
-        for s_ in (a, b, c):
+        for s_ in (a, b, c, d, dd):
             if getattr(s_, "checkpoint_manager", None) is not None:
                 s_.checkpoint_manager.wait_until_finished()
         thr = e if (g == 1.0 or sv in ("rvi", "per")) else (float("inf") if g == 0 else e * (1 - g) / g)
         dec = "inf" if not np.isfinite(thr) else str(int(np.floor(np.log10(thr))))
         gcl = {0.0: "g=0", 1.0: "g=1"}.get(g, "g~0" if g < 1e-3 else ("g~1" if g > 0.999 else "g=.5"))
-        return dict(status="ok", cls=["routes", sv, gcl, f"thr~1e{dec}", case["pname"]], n_obs=3,
+        return dict(status="ok", cls=["routes", sv, gcl, f"thr~1e{dec}", case["pname"]], n_obs=5,
                     stopped_early=converged_gamma0)
     finally:
         import shutil
